@@ -113,6 +113,13 @@ class World(object):
             return ProtocolTreeNode("iq", {"id": "%s-%d" % (t, n), "type": None})          # unencodable value
         if fault == "oversize":
             return ProtocolTreeNode("iq", {"id": "%s-%d" % (t, n)}, None, b"\x00" * 16777216)
+        if fault == "oversize_edge":
+            # encoded size exactly 2^24 - 16: with the 16-byte tag the frame needs 2^24 bytes
+            from yowsup.layers.coder.encoder import WriteEncoder
+            from yowsup.layers.coder.tokendictionary import TokenDictionary
+            probe = ProtocolTreeNode("iq", {"id": "%s-%d" % (t, n)}, None, b"\x00" * 1048576)
+            overhead = len(WriteEncoder(TokenDictionary()).protocolTreeNodeToBytes(probe)) - 1048576
+            return ProtocolTreeNode("iq", {"id": "%s-%d" % (t, n)}, None, b"\x00" * (16777216 - 16 - overhead))
         return ProtocolTreeNode("iq", {"id": "%s-%d" % (t, n), "type": "get", "xmlns": "w:p"})
 
     def thread_fn(self, t):
@@ -288,6 +295,8 @@ def run(pid):
     rng = random.Random(core.seed())
     allcfg = parse_jobs()
     mine = sorted(k for k in allcfg if k.startswith("JobsC11" if pid == "C11" else "JobsC12"))
+    if pid == "C11":
+        mine.append("JobsC12g")     # a refused boundary-size stanza must not disturb the counters of the frames that follow
     r.cov["rule"] = ("case = one schedule (interleaving at lock / queue operations) of the job configuration's threads on a real transport stack "
                      "(network(fake dispatcher) | segments | noise (handshake done against the Noise double) | coder | logger | mid | top) run under the "
                      "deterministic scheduler: TLC schedules from SendPath.tla replayed step by step (transition cover) + PCT-random schedules; checked: "
@@ -302,11 +311,11 @@ def run(pid):
             short = cfg[4:].lower()
             res = core.must_clean(core.tlc("MC_SendPath", "MC_SendPath_%s.cfg" % short, r.scratch, workers=8, timeout=1200), cfg)
             r.add_tlc(res)
-            if pid == "C12":
+            if pid == "C12" and cfg.startswith("JobsC12"):
                 bad = core.tlc("MC_SendPath", "MC_SendPath_%s_asread.cfg" % short, r.scratch, workers=4)
                 core.must_violate(bad, "NoLockLeak", cfg + " as read")
             jobs = allcfg[cfg]
-            has_oversize = any(j["fault"] == "oversize" for js in jobs.values() for j in js)
+            has_oversize = any(j["fault"] in ("oversize", "oversize_edge") for js in jobs.values() for j in js)
             ecfg = "Edges_SendPath_%s.cfg" % short
             open(os.path.join(core.SPEC, ecfg), "w").write(re.sub(r"^(INVARIANT|PROPERTY).*\n", "", open(os.path.join(core.SPEC, "MC_SendPath_%s.cfg" % short)).read(), flags=re.M)
                                                           .replace("SPECIFICATION FairSpec", "SPECIFICATION Spec") + "ACTION_CONSTRAINT Edge\n")
